@@ -3,6 +3,8 @@ import Ledger.Proofs.MachineAllot
 /-! C22 facts about one `send` statement. -/
 namespace Ledger.Machine
 
+variable {cfg : Cfg}
+
 /-- What C22 says about the postings `new` of one send of `amount` in `asset`;
     `kept` is what the destination kept (handed back to the sources, not posted). -/
 structure SendOK (st st' : State) (asset : String) (amount : Int) (new : List Posting) (kept : Int) : Prop where
@@ -24,7 +26,7 @@ theorem SendOK.ofFinish {f : Funding} {st0 st st' : State} {new : List Posting} 
 /-- `send <monetary> (source = <source> …)`: the postings are in the monetary's asset,
     non-negative, and sum to the monetary's amount minus what was kept. -/
 theorem send_src_ok {env : Env} {mon : Expr} {s : Source} {dst : Dest} {st st' : State}
-    (h : evalStmt env (.send mon (.src s) dst) st = .ok st') :
+    (h : evalStmt cfg env (.send mon (.src s) dst) st = .ok st') :
     ∃ asset amt new kept, evalMonetary env mon = .ok (asset, some amt) ∧
       SendOK st st' asset amt new kept := by
   simp only [evalStmt] at h
@@ -34,7 +36,7 @@ theorem send_src_ok {env : Env} {mon : Expr} {s : Source} {dst : Dest} {st st' :
     split at h
     · cases h
     · rename_i f b1 hs
-      obtain ⟨i1, _⟩ := evalSource_ok env asset s st.bal f b1 hs
+      obtain ⟨i1, _⟩ := evalSource_ok cfg env asset s st.bal f b1 hs
       have hn0 : partsNonneg f.parts := i1.nonneg f (by simp)
       split at h
       · cases h
@@ -57,9 +59,9 @@ theorem send_src_ok {env : Env} {mon : Expr} {s : Source} {dst : Dest} {st st' :
     non-negative, and sum to everything the sources made available minus what was
     kept. -/
 theorem sendAll_ok {env : Env} {assetE : Expr} {s : Source} {dst : Dest} {st st' : State}
-    (h : evalStmt env (.sendAll assetE (.src s) dst) st = .ok st') :
+    (h : evalStmt cfg env (.sendAll assetE (.src s) dst) st = .ok st') :
     ∃ asset f b1 new kept, evalAssetE env assetE = .ok asset ∧
-      evalSource env asset s st.bal = .ok (f, b1) ∧
+      evalSource cfg env asset s st.bal = .ok (f, b1) ∧
       SendOK st st' f.asset (total f.parts) new kept := by
   simp only [evalStmt] at h
   split at h
@@ -68,7 +70,7 @@ theorem sendAll_ok {env : Env} {assetE : Expr} {s : Source} {dst : Dest} {st st'
     split at h
     · cases h
     · rename_i f b1 hs
-      obtain ⟨i1, _⟩ := evalSource_ok env asset s st.bal f b1 hs
+      obtain ⟨i1, _⟩ := evalSource_ok cfg env asset s st.bal f b1 hs
       have hn0 : partsNonneg f.parts := i1.nonneg f (by simp)
       obtain ⟨new, rem, fin, _⟩ := finishSend_ok h
       exact ⟨asset, f, b1, new, total rem, ha, hs, SendOK.ofFinish (st0 := st) hn0 fin rfl⟩
@@ -120,7 +122,7 @@ theorem AllotSrcList.portions_length (items : AllotSrcList) : items.portions.len
     compiler accepted (`checkAllotment`). -/
 theorem send_allot_ok {env : Env} (henv : EnvGood env) {ds : Decls} {mon : Expr} {items : AllotSrcList}
     {dst : Dest} {st st' : State} (hc : checkAllotment ds items.portions = .ok ())
-    (h : evalStmt env (.send mon (.allot items) dst) st = .ok st') :
+    (h : evalStmt cfg env (.send mon (.allot items) dst) st = .ok st') :
     ∃ asset amt new kept, evalMonetary env mon = .ok (asset, some amt) ∧
       SendOK st st' asset amt new kept := by
   simp only [evalStmt] at h
@@ -139,7 +141,7 @@ theorem send_allot_ok {env : Env} (henv : EnvGood env) {ds : Decls} {mon : Expr}
           split at h
           · cases h
           · rename_i fs b1 hs
-            obtain ⟨i1, i2, i3, _⟩ := evalAllotSrc_ok env asset m.1 items _ st.bal fs b1 hs
+            obtain ⟨i1, i2, i3, _⟩ := evalAllotSrc_ok cfg env asset m.1 items _ st.bal fs b1 hs
             split at h
             · cases h
             · rename_i f hasm
